@@ -416,7 +416,10 @@ impl Ctx {
             };
         }
         if let (Some(x), Some(y)) = (self.konst(a), self.konst(b)) {
-            if let Some(o) = x.cmp(y) {
+            let representable = |r: Rat| r.0.abs() < (1i128 << 53) && (r.1 & (r.1 - 1)) == 0 && r.1 <= (1i128 << 60);
+            // in mode O constants denote their nearest double: only exactly representable ones are compared here
+            let ok = self.mode == Mode::R || (representable(x) && representable(y));
+            if let (Some(o), true) = (x.cmp(y), ok) {
                 use std::cmp::Ordering::*;
                 return match k {
                     Cmp::Lt => o == Less,
@@ -529,7 +532,9 @@ impl Ctx {
         v
     }
     fn fold(&mut self, op: Op, x: Rat, y: Rat) -> Option<Rat> {
-        let exact_int = |r: Rat| r.is_int() && r.0.abs() < (1i128 << 53);
+        // exactly representable double: dyadic, significand below 2^53, moderate exponent. If both operands and
+        // the exact result are representable, the correctly rounded IEEE operation returns exactly that result.
+        let exact_int = |r: Rat| r.0.abs() < (1i128 << 53) && r.1 > 0 && (r.1 & (r.1 - 1)) == 0 && r.1 <= (1i128 << 60);
         let r = match op {
             Op::Add => x.add(y),
             Op::Sub => x.sub(y),
@@ -558,7 +563,7 @@ impl Ctx {
         }
         let r = r?;
         if self.mode == Mode::O || self.concolic {
-            // only IEEE-exact integer arithmetic is folded
+            // only IEEE-exact arithmetic on representable constants is folded
             if exact_int(x) && exact_int(y) && exact_int(r) {
                 Some(r)
             } else {
